@@ -951,8 +951,11 @@ pub fn mode(args: &Args) {
 }}"
     );
     write_if_changed(&dir.join("src").join("main.rs"), &main);
+    // one target directory serves the crates of all seeds of a tier: the crate (and so its
+    // executable) is named after its directory, or cargo would run what another seed left there
+    let crate_name: String = dir.file_name().and_then(|n| n.to_str()).unwrap_or("gendrv").chars().map(|c| if c.is_ascii_alphanumeric() { c } else { '_' }).collect();
     let cargo = format!(
-        "[package]\nname = \"gendrv\"\nversion = \"0.1.0\"\nedition = \"2021\"\n\n[workspace]\n\n[dependencies]\ndrvlib = {{ path = \"/verif/harness/drvlib\" }}\nvtypes = {{ path = \"/verif/harness/vtypes\" }}\ntruc_runtime = {{ path = \"/repo/truc_runtime\" }}\nstatic_assertions = \"1\"\nserde = \"1\"\nserde_json = \"1\"\nbincode = \"1\"\n\n[features]\nhooks = [\"drvlib/hooks\", \"truc_runtime/verif-hooks\"]\nthreads = []\n\n[profile.dev]\ndebug = 1\ndebug-assertions = true\noverflow-checks = true\n\n[profile.release]\nopt-level = 3\ndebug = 1\ncodegen-units = 16\n"
+        "[package]\nname = \"{crate_name}\"\nversion = \"0.1.0\"\nedition = \"2021\"\n\n[workspace]\n\n[dependencies]\ndrvlib = {{ path = \"/verif/harness/drvlib\" }}\nvtypes = {{ path = \"/verif/harness/vtypes\" }}\ntruc_runtime = {{ path = \"/repo/truc_runtime\" }}\nstatic_assertions = \"1\"\nserde = \"1\"\nserde_json = \"1\"\nbincode = \"1\"\n\n[features]\nhooks = [\"drvlib/hooks\", \"truc_runtime/verif-hooks\"]\nthreads = []\n\n[profile.dev]\ndebug = 1\ndebug-assertions = true\noverflow-checks = true\n\n[profile.release]\nopt-level = 3\ndebug = 1\ncodegen-units = 16\n"
     );
     write_if_changed(&dir.join("Cargo.toml"), &cargo);
     std::fs::create_dir_all(dir.join(".cargo")).unwrap();
